@@ -780,3 +780,46 @@ Proof.
   cbv [setnth getnth nth]. symexec.
 Qed.
 End GenADUP2.
+
+(* ============================================ accelerated proximal gradient (FISTA) *)
+Section GenAPG.
+Variables (proxf gradg : Rvec -> Rvec) (gamma : R) (alpha : nat -> R) (junk : string -> Rvec).
+Definition apg_I (k : nat) : interp :=
+  mk_I [("gamma", gamma); ("alpha", alpha k)] [("f.proximal(gamma)", proxf); ("g.gradient", gradg)] [] [] junk.
+Definition env_apg : list (string * nat) := [("x", 0%nat); ("caller.x", 0%nat); ("tmp", 1%nat); ("y", 2%nat)].
+Definition apg_full := ((Rvec * Rvec) * Rvec)%type.
+Definition apg_full_step (k : nat) (f : apg_full) : apg_full :=
+  (apg_step proxf gradg gamma alpha k (fst f), vlin 1 (snd (fst f)) (- gamma) (gradg (snd (fst f)))).
+Definition apg_enc (f : apg_full) : list Rvec := [fst (fst f); snd f; snd (fst f)].
+Lemma gen_apg_pre x log :
+  option_map canon (exec (apg_I 0) accelerated_proximal_gradient_pre (mk_hst env_x [x] log))
+  = Some (mk_hst env_apg (apg_enc ((x, x), junk "tmp")) log).
+Proof. symexec. Qed.
+Lemma gen_apg_body k f log :
+  body_step (apg_I k) accelerated_proximal_gradient_body (mk_hst env_apg (apg_enc f) log)
+  = Some (mk_hst env_apg (apg_enc (apg_full_step k f)) (log ++ [fst (fst (apg_full_step k f))])).
+Proof. destruct f as [[x y] t]. symexec. Qed.
+Lemma apg_full_fst n k0 f : fst (iterk n k0 apg_full_step f) = iterk n k0 (apg_step proxf gradg gamma alpha) (fst f).
+Proof. revert k0 f; induction n as [|n IH]; intros k0 f; cbn [iterk]; [reflexivity | now rewrite IH]. Qed.
+Lemma apg_full_trace n k0 f :
+  tracek (fun f : apg_full => fst (fst f)) n k0 apg_full_step f
+  = tracek (@fst Rvec Rvec) n k0 (apg_step proxf gradg gamma alpha) (fst f).
+Proof. revert k0 f; induction n as [|n IH]; intros k0 f; cbn [tracek]; [reflexivity | now rewrite IH]. Qed.
+(* the y = x.copy() of the preamble is a separate object; callback log and final x are the model's *)
+Lemma gen_apg_run n x :
+  exists s,
+    obind (option_map canon (exec (apg_I 0) accelerated_proximal_gradient_pre (mk_hst env_x [x] [])))
+          (iterk_opt n 0 (fun k => body_step (apg_I k) accelerated_proximal_gradient_body)) = Some s
+    /\ deref s "caller.x" = Some (fst (iterk n 0 (apg_step proxf gradg gamma alpha) (x, x)))
+    /\ h_log s = tracek (@fst Rvec Rvec) n 0 (apg_step proxf gradg gamma alpha) (x, x)
+    /\ List.length (h_log s) = n.
+Proof.
+  eexists. split.
+  - rewrite gen_apg_pre. cbn [obind].
+    rewrite (sim_iterk env_apg apg_enc (fun f => [fst (fst f)]) _ _ gen_apg_body), traceLk_single. reflexivity.
+  - split; [|split].
+    + pose proof (apg_full_fst n 0 ((x, x), junk "tmp")) as E. cbn [fst] in E. rewrite <- E. reflexivity.
+    + cbn [h_log app]. rewrite apg_full_trace. reflexivity.
+    + cbn [h_log app]. apply tracek_length.
+Qed.
+End GenAPG.
